@@ -18,7 +18,7 @@ def configs(tier, rng):
                 if not br and th > 1:
                     continue
                 out.append({"logic": lg, "threshold": th, "T": 2, "breaker": br, "cache": ca, "prompts": ["p1", "p2"], "vset": "small",
-                            "strings": guard.strings(rng)})
+                            "strings": guard.strings(rng), "unit": [10.0, 0.2, 50000.0][len(out) % 3]})      # recovery timeout 20 s / 0.4 s / 100 000 s (> 1 day)
     return out
 
 
